@@ -401,11 +401,12 @@ fn main() {
     // the wire monitor over the two-endpoint model (with a compressible size class)
     let mut outcomes = Vec::new();
     for v in variants {
-        let base = Cfg { sizes: vec![3, 40], disconnects: 1, ..Cfg::base(v) };
+        let base = Cfg { sizes: vec![40], disconnects: 1, ..Cfg::base(v) };
         let cfgs = match run.tier {
-            Tier::Quick => vec![Cfg { vsends: [1, 1], nsends: [1, 1], drops: 1, dups: 0, advances: 2, ..base.clone() }],
+            Tier::Quick => vec![Cfg { vsends: [1, 1], nsends: [1, 0], drops: 1, dups: 0, advances: 1, ..base.clone() }],
             Tier::Thorough => vec![
-                Cfg { vsends: [2, 1], nsends: [1, 1], drops: 1, dups: 1, advances: 2, ..base.clone() },
+                Cfg { sizes: vec![3, 40], vsends: [1, 1], nsends: [1, 1], drops: 1, dups: 0, advances: 2, ..base.clone() },
+                Cfg { vsends: [2, 1], nsends: [1, 0], drops: 1, dups: 1, advances: 2, disconnects: 0, ..base.clone() },
             ],
         };
         for cfg in cfgs {
